@@ -17,11 +17,11 @@ res = {'seed': sid, 'property': prop, 'ran': []}
 try:
     demo_dst = os.path.join(wt, demodir, 'zz_seed_demo_test.go')
     shutil.copy(demo, demo_dst)
-    testname = None
+    names = []
     for l in open(demo):
-        if l.startswith('func Test'):
-            testname = l.split('(')[0][5:]
-            break
+        if l.startswith('func Test') and not l.startswith('func TestMain'):
+            names.append(l.split('(')[0][5:])
+    testname = '^(' + '|'.join(names) + ')$'  # every test of the demo file (a demo may start with a control test that passes either way)
     rc0, out0 = sh('go test -vet=off -count=1 -run "%s" ./%s/' % (testname, demodir), cwd=wt)
     res['demo_without_change'] = 'pass' if rc0 == 0 else 'FAIL'
     rc, out = sh('git apply %s' % patch, cwd=wt)
